@@ -38,6 +38,16 @@ def Subscribe.InDomain (p : Subscribe) : Prop :=
   p.fixed = 0x82 ∧ (∀ v, p.subscriptionID = some v → 1 ≤ v ∧ v < 268435456) ∧ UpsInRange p.userProps
   ∧ p.filters ≠ [] ∧ (∀ f ∈ p.filters, f.OK) ∧ p.body.length < 268435456
 
+/-- lenient: any subscription option byte -/
+def Subscribe.InDomainL (p : Subscribe) : Prop :=
+  p.fixed = 0x82 ∧ (∀ v, p.subscriptionID = some v → 1 ≤ v ∧ v < 268435456) ∧ UpsInRange p.userProps
+  ∧ p.filters ≠ [] ∧ (∀ f ∈ p.filters, strOK f.filter) ∧ p.body.length < 268435456
+
+/-- lenient: possibly no reason code -/
+def SubAck.InDomainL (k : Nat) (p : SubAck) : Prop :=
+  (k = 9 ∨ k = 11) ∧ p.fixed = UInt8.ofNat (k * 16) ∧ strOK p.reasonString ∧ UpsInRange p.userProps
+  ∧ p.body.length < 268435456
+
 def Unsubscribe.InDomain (p : Unsubscribe) : Prop :=
   p.fixed = 0xa2 ∧ UpsInRange p.userProps ∧ p.filters ≠ [] ∧ (∀ f ∈ p.filters, strOK f) ∧ p.body.length < 268435456
 
@@ -61,12 +71,24 @@ def Connect.WillOK (p : Connect) (w : Publish) : Prop :=
   ∧ strOK w.topicName ∧ strOK w.payload ∧ strOK w.responseTopic ∧ strOK w.correlationData ∧ strOK w.contentType
   ∧ UpsInRange w.userProps
 
-def Connect.InDomain (p : Connect) : Prop :=
+/-- `k` = slack on the remaining-length bound (0 in the domain proper; the C01 substitution argument
+looks at a twin packet up to four bytes longer) -/
+def Connect.InDomainW (k : Nat) (p : Connect) : Prop :=
   p.fixed = 0x10 ∧ p.protocolName = Connect.mqtt5 ∧ p.protocolVersion = 5 ∧ p.FlagsInv
   ∧ (∀ w, p.will = some w → p.WillOK w)
   ∧ (p.will = none → p.willDelayInterval = 0 ∧ p.willPayload = [] ∧ p.flags &&& 0x3c = 0)
   ∧ strOK p.clientID ∧ strOK p.authMethod ∧ strOK p.authData ∧ strOK p.username ∧ strOK p.password
   ∧ UpsInRange p.userProps
+  ∧ (∀ b, p.body? = some b → b.length < 268435456 + k)
+
+def Connect.InDomain (p : Connect) : Prop := p.InDomainW 0
+
+/-- CONNECT with any protocol name (up to 65 535 bytes) and any protocol version, everything else
+as `InDomain`: stated through the `MQTT`/5 twin. The twin's own length bound (slack 4) is implied by
+the packet's (`Connect.twin_bound`, Props/C01), so the conditions are: name ≤ 65 535 bytes, the
+`InDomain` conditions on every other field, remaining length ≤ 268 435 455. -/
+def Connect.InDomainL (p : Connect) : Prop :=
+  strOK p.protocolName ∧ ({ p with protocolName := Connect.mqtt5, protocolVersion := 5 } : Connect).InDomainW 4
   ∧ (∀ b, p.body? = some b → b.length < 268435456)
 
 def Packet.InDomain : Packet → Prop
@@ -81,5 +103,13 @@ def Packet.InDomain : Packet → Prop
   | .pingreq p => p.InDomain 12 | .pingresp p => p.InDomain 13
   | .disconnect p => p.InDomain
   | .auth p => p.InDomain
+
+/-- **the C01 domain**: `InDomain` with the three relaxations — packets the API lets a caller build that
+are not valid MQTT but must round-trip all the same -/
+def Packet.InDomainL : Packet → Prop
+  | .connect p => p.InDomainL
+  | .subscribe p => p.InDomainL
+  | .suback p => p.InDomainL 9 | .unsuback p => p.InDomainL 11
+  | p => p.InDomain
 
 end Mq
